@@ -1,6 +1,7 @@
 package harness
 
 import (
+	"encoding/binary"
 	"fmt"
 	"strings"
 	"testing"
@@ -228,6 +229,50 @@ func c14File(m *Model, v *Verdict, file []byte, expect string, shape string, ori
 	return res == "ok", got
 }
 
+// c14AddTails appends 1..8 octets (4 in half of the cases) to every record of the file that has a 32-bit key
+// version field, and adjusts the record's length. nil when there is no such record or the walk does not fit.
+func c14AddTails(file []byte, ver int, items []ktItem, rng *RNG) []byte {
+	var bo binary.ByteOrder = binary.BigEndian
+	if ver == 1 {
+		bo = binary.LittleEndian
+	}
+	out := append([]byte{}, file[:2]...)
+	p, changed := 2, false
+	for _, it := range items {
+		if p+4 > len(file) {
+			return nil
+		}
+		l := int32(bo.Uint32(file[p:]))
+		n := int(l)
+		if l < 0 {
+			n = -n
+		}
+		if p+4+n > len(file) || (l < 0) != (it.hole > 0) {
+			return nil
+		}
+		body := file[p+4 : p+4+n]
+		if l > 0 && it.has32 {
+			tl := 4
+			if rng.Intn(2) == 0 {
+				tl = 1 + rng.Intn(8)
+			}
+			var lb [4]byte
+			bo.PutUint32(lb[:], uint32(n+tl))
+			out = append(out, lb[:]...)
+			out = append(out, body...)
+			out = append(out, rng.Bytes(tl)...)
+			changed = true
+		} else {
+			out = append(out, file[p:p+4+n]...)
+		}
+		p += 4 + n
+	}
+	if p != len(file) || !changed {
+		return nil
+	}
+	return out
+}
+
 func c14Case(m *Model, v *Verdict, rng *RNG, idx int) {
 	ver := 1 + rng.Intn(2)
 	items := genKtItems(rng)
@@ -265,6 +310,12 @@ func c14Case(m *Model, v *Verdict, rng *RNG, idx int) {
 	if !ok {
 		return
 	}
+	// ---- the same file with further fields after the 32-bit key version of its records (the record length
+	// delimits a record; Heimdal writes a 32-bit flags word there): the entries read are the same ones
+	if tailed := c14AddTails(file, ver, items, rng); tailed != nil {
+		v.Case(key+"/tail", "render+parse with record tails "+fmt.Sprintf("v%d", ver))
+		c14File(m, v, tailed, exp, shape+"/tail", "rendered (fields after the 32-bit key version)")
+	}
 	// ---- Marshal: bytes equal the model's, and re-parse returns the same entries (round trip)
 	kt := new(keytab.Keytab)
 	kt.Unmarshal(file)
@@ -290,7 +341,7 @@ func c14Case(m *Model, v *Verdict, rng *RNG, idx int) {
 			e := entries[rng.Intn(len(entries))]
 			realm, comps, kvno, et := e.realm, e.comps, uint64(e.kvno), e.et
 			kind := "hit"
-			switch rng.Intn(9) {
+			switch rng.Intn(12) {
 			case 0:
 				realm = append([]byte{}, realm...)
 				realm = append(realm, 'x')
@@ -315,6 +366,15 @@ func c14Case(m *Model, v *Verdict, rng *RNG, idx int) {
 					kvno = 1
 				}
 				kind = "kvno+1"
+			case 7:
+				// another key version with the same low octet(s)
+				kvno = (kvno + uint64(rng.Pick(256, 512, 65536, 1<<24))) % (1 << 32)
+				kind = "kvno+256k"
+			case 8:
+				if kvno > 255 {
+					kvno &= 0xff
+					kind = "kvno-low-octet"
+				}
 			case 6:
 				if len(comps) > 0 {
 					cs := append([][]byte{}, comps...)
